@@ -875,3 +875,127 @@ func R42() Rule {
 		}
 	}}
 }
+
+// ---------------------------------------------------------------------------
+// R43: scan bounds handed to Rows.Ascend* are never nil
+// ---------------------------------------------------------------------------
+
+// R43: the Rows contract gives no meaning to a nil bound and the engines differ
+// on it (goleveldb treats a nil Limit as "unbounded", the btree engine compares
+// every key with the nil pivot and visits nothing), so a caller that can pass a
+// nil slice as a bound makes the engine observable.  Reported: a bound argument
+// one of whose origins is an explicit nil — the nil constant, or the result of
+// a repository function that returns nil on some path — without a dominating
+// test of that value (`x != nil`, `len(x) > 0`, `len(x) == 0` on the other edge).
+func R43() Rule {
+	return Rule{Name: "R43", Run: func(c *core.Ctx) {
+		P := c.P
+		mayReturnNil := func(f *ssa.Function) bool {
+			if f == nil || f.Blocks == nil || core.PkgPathOf(f) != core.PkgBttest {
+				return false
+			}
+			for _, r := range returnsIn(f) {
+				if len(r.Results) == 0 {
+					continue
+				}
+				for _, rv := range returnValues(r.Results[0]) {
+					if core.IsNilConst(core.Resolve(rv)) {
+						return true
+					}
+				}
+			}
+			return false
+		}
+		var explicitNil func(v ssa.Value, depth int, seen map[ssa.Value]bool) (bool, string)
+		explicitNil = func(v ssa.Value, depth int, seen map[ssa.Value]bool) (bool, string) {
+			v = core.Resolve(v)
+			if depth > 8 || seen[v] {
+				return false, ""
+			}
+			seen[v] = true
+			switch x := v.(type) {
+			case *ssa.Const:
+				if x.Value == nil {
+					return true, "the nil constant"
+				}
+			case *ssa.Call:
+				if sc := x.Call.StaticCallee(); mayReturnNil(sc) {
+					return true, "the result of " + core.FuncName(sc) + ", which returns nil on some path"
+				}
+			case *ssa.Phi:
+				for _, e := range x.Edges {
+					if ok, why := explicitNil(e, depth+1, seen); ok {
+						return true, why
+					}
+				}
+			case *ssa.Parameter:
+				for _, o := range P.Origins(x, nil) {
+					if o != ssa.Value(x) {
+						if ok, why := explicitNil(o, depth+1, seen); ok {
+							return true, why
+						}
+					}
+				}
+			case *ssa.UnOp:
+				if cell := core.CellOf(x.X); cell != nil {
+					for _, st := range core.StoresTo(cell) {
+						if ok, why := explicitNil(st.Val, depth+1, seen); ok {
+							return true, why
+						}
+					}
+				}
+			}
+			return false, ""
+		}
+		guarded := func(v ssa.Value, at ssa.Instruction) bool {
+			for _, f := range core.FactsAtInstr(at) {
+				l, op, r, ok := cmpNorm(f)
+				if !ok {
+					continue
+				}
+				// x != nil
+				if core.IsNilConst(r) && core.SameValue(l, v) && op == token.NEQ {
+					return true
+				}
+				if core.IsNilConst(l) && core.SameValue(r, v) && op == token.NEQ {
+					return true
+				}
+				// len(x) > 0, len(x) != 0, len(x) >= 1
+				if la := lenArg(l); la != nil && core.SameValue(la, v) {
+					if k, isK := core.ConstInt(r); isK && ((op == token.GTR && k >= 0) || (op == token.NEQ && k == 0) || (op == token.GEQ && k >= 1)) {
+						return true
+					}
+				}
+			}
+			return false
+		}
+		n := 0
+		for _, fn := range P.SrcFuncs(core.PkgBttest) {
+			k := 0
+			for _, ci := range core.AllCalls(fn) {
+				if !isRowsMethod(ci, "AscendRange", "AscendLessThan", "AscendGreaterOrEqual") {
+					continue
+				}
+				nb := 1
+				if ci.Method.Name() == "AscendRange" {
+					nb = 2
+				}
+				for i := 0; i < nb && i < len(ci.Common.Args); i++ {
+					n++
+					k++
+					c.Fn(core.FuncName(fn))
+					construct := fmt.Sprintf("%s/%s#%d/bound-%d-not-nil", core.FuncName(fn), ci.Method.Name(), k, i)
+					arg := ci.Common.Args[i]
+					if isNil, why := explicitNil(arg, 0, map[ssa.Value]bool{}); isNil && !guarded(arg, ci.Instr) {
+						c.Bad("R43", construct, ci.Instr.Pos(), "a scan bound can be nil here (%s): the Rows contract gives a nil bound no meaning and the engines differ on it — goleveldb scans without that bound, the btree engine visits nothing", why)
+					} else {
+						c.Ok("R43", construct, ci.Instr.Pos(), true, "no explicit nil reaches this bound unguarded")
+					}
+				}
+			}
+		}
+		if n < 5 {
+			c.Unknown("R43", "floor/bounds", token.NoPos, "only %d scan-bound arguments found", n)
+		}
+	}}
+}
